@@ -461,6 +461,11 @@ func oracleSendError(c *Ctx, sc *SmtpScenario, run *SmtpRun) {
 		anyRcptFail := false
 		for k, st := range d.step {
 			code := d.code[k]
+			if strings.HasSuffix(d.text[k], outOfSequence) && m.HasErr {
+				// no failing reply of the script concerned this message: the server refused a command of it that is out of
+				// sequence because of what the client did (or did not do) after ANOTHER message failed
+				c.Violate("c20-error-on-unaffected", fmt.Sprintf("message %d carries an error because its %s was out of sequence for the server (%d %s): the failure of another message was carried over", i, st, code, d.text[k]), in)
+			}
 			switch st {
 			case "MAIL":
 				if code != 250 && want < 0 {
